@@ -6,6 +6,7 @@ import (
 	"bytes"
 	"encoding/json"
 	"fmt"
+	"io"
 	"strings"
 	"testing"
 
@@ -34,6 +35,7 @@ type readCase struct {
 	WithData bool   `json:"with_data"`
 	Truncate bool   `json:"truncate"`
 	Once     bool   `json:"once"` // transient fault
+	ErrKind  string `json:"err_kind,omitempty"` // "": sentinel error; "unexpected-eof": io.ErrUnexpectedEOF
 }
 
 func checkRead(c *readCase) (msg string, delivered bool) {
@@ -53,6 +55,11 @@ func checkRead(c *readCase) (msg string, delivered bool) {
 		return "", true
 	}
 	r := &iofault.FailAt{Data: c.Data, At: c.At, WithData: c.WithData, Once: c.Once}
+	if c.ErrKind == "unexpected-eof" {
+		// what io.ReadFull, io.SectionReader-style wrappers and decompressors
+		// return for a source that ended early: an error like any other
+		r.Err = io.ErrUnexpectedEOF
+	}
 	_, err := tg.Run(r)
 	if r.Delivered && err == nil {
 		// A reader may look ahead (buffering) beyond what the result needs.
@@ -98,7 +105,7 @@ func genReadInput(t *rapid.T) (target string, data []byte, label string, truncat
 func TestP1ReadFaults(t *testing.T) {
 	rec := ev.New("C13", "readfaults")
 	defer rec.Finish(t)
-	rec.Rule("for each generated input (programs incl. eexec sections, single-CMap files, Type 1 fonts in the four containers from both writers, AFM files, PFB streams; up to 8 KB): a read fault with a distinct sentinel error at EVERY byte offset 0..len, with the error returned alone or together with the last bytes before the offset, persistent (every later read fails too; both forms) or transient (error returned alone once, reading would continue normally afterwards); for Type 1 and CMap files additionally a truncation at EVERY offset. Oracle: if the fault was delivered to the library (the wrapper records it) and the bytes before it do not already determine the complete result (the input cut off at the fault offset reads differently from the whole input - otherwise a buffering reader may legitimately never look at the fault) the call must return a non-nil error and must not panic; a truncated file must give an error or the result of the complete file. Non-trivial: fault delivered and strictly inside the data; distinct by (input, offset, variant).")
+	rec.Rule("for each generated input (programs incl. eexec sections, single-CMap files, Type 1 fonts in the four containers from both writers, AFM files, PFB streams; up to 8 KB): a read fault (a distinct sentinel error, or for half of the inputs io.ErrUnexpectedEOF in the persistent forms) at EVERY byte offset 0..len, with the error returned alone or together with the last bytes before the offset, persistent (every later read fails too; both forms) or transient (error returned alone once, reading would continue normally afterwards); for Type 1 and CMap files additionally a truncation at EVERY offset. Oracle: if the fault was delivered to the library (the wrapper records it) and the bytes before it do not already determine the complete result (the input cut off at the fault offset reads differently from the whole input - otherwise a buffering reader may legitimately never look at the fault) the call must return a non-nil error and must not panic; a truncated file must give an error or the result of the complete file. Non-trivial: fault delivered and strictly inside the data; distinct by (input, offset, variant).")
 	ev.SetupRapid(60, 1600)
 	rapid.Check(t, func(t *rapid.T) {
 		target, data, label, trunc := genReadInput(t)
@@ -107,6 +114,8 @@ func TestP1ReadFaults(t *testing.T) {
 			return
 		}
 		rec.Class(label)
+		errKind := rapid.SampledFrom([]string{"", "unexpected-eof"}).Draw(t, "errkind")
+		rec.Class("error:" + errKind)
 		h := ev.Hash(string(data))
 		for at := 0; at <= len(data); at++ {
 			for v := 0; v < 4; v++ {
@@ -114,6 +123,12 @@ func TestP1ReadFaults(t *testing.T) {
 				// together with data is only asserted in its persistent form:
 				// io.ReadFull legitimately defers such an error to the next read)
 				c := &readCase{Target: target, Data: data, At: at, WithData: v == 1, Truncate: v == 2, Once: v == 3}
+				if v < 2 {
+					// only in persistent form: io.ReadFull maps an early end to
+					// the same value, so a transient one is indistinguishable
+					// from a short read for code built on it
+					c.ErrKind = errKind
+				}
 				if c.Truncate && (!trunc || at == len(data)) {
 					continue
 				}
